@@ -52,6 +52,9 @@ func main() {
 		if os.Getenv("GOSYM_NOMAPORDER") != "" {
 			cfg.MapOrderOff = true
 		}
+		if v, _ := strconv.Atoi(os.Getenv("GOSYM_INSTRS")); v > 0 {
+			cfg.InstrBudget = v
+		}
 		if os.Getenv("GOSYM_NOIFCONV") != "" {
 			cfg.NoIfConv = true
 		}
